@@ -36,7 +36,7 @@ fn signed_object(kp: &Ed25519KeyPair, mxid: Option<&str>, token: Option<Value>) 
     serde_json::to_value(&obj).unwrap()
 }
 
-pub const N_SHAPES: usize = 17;
+pub const N_SHAPES: usize = 20;
 
 pub fn fam_invite_tpi(v: u8, f: &mut dyn FnMut(Case)) {
     let kp1 = keypair(1);
@@ -91,6 +91,21 @@ pub fn fam_invite_tpi(v: u8, f: &mut dyn FnMut(Case)) {
                         }
                         14 => {
                             tpi_content["public_key"] = json!("***not base64***");
+                        }
+                        17 => {
+                            // the signing key only in `public_key`, the list holds another key
+                            valid = true;
+                            tpi_content["public_keys"] = json!([{"public_key": public_key_b64(&kp2)}]);
+                        }
+                        18 => {
+                            // the signing key only in the list, `public_key` is another key
+                            valid = true;
+                            tpi_content["public_key"] = json!(public_key_b64(&kp2));
+                            tpi_content["public_keys"] = json!([{"public_key": public_key_b64(&kp1), "key_validity_url": "https://x"}]);
+                        }
+                        19 => {
+                            valid = true;
+                            tpi_content["public_keys"] = json!([]);
                         }
                         16 => {
                             // valid signature plus an unrelated invalid one first
